@@ -29,7 +29,7 @@ deriving DecidableEq, Repr
 
 inductive Op
   | cfgSet (n : Nat) | evNew (n : Nat) | dgNew (n : Nat) | depSet (n : Nat) | depDel (n : Nat) | depPop (n : Nat)
-  | cfgDel (n : Nat) | dgDel (n : Nat)
+  | cfgDel (n : Nat) | dgDel (n : Nat) | depKeys
   | evSet (n : Nat) | evClear (n : Nat) | evPass (n : Nat) | evBlock (n : Nat)
   | depsAdd (owner x : Nat) | depsDiscard (owner x : Nat)
   | connDeployEnter (n : Nat) | connDeployExit (n : Nat) | connDeployFail (n : Nat)
@@ -139,8 +139,9 @@ def micro (c : Cfg) (deps : List Dep) (s : St) (t : Nat) (sig : Sig) : Next :=
   | [] =>
       -- the request is over
       let ok := sig != .raise
-      let s1 := emit (setSt s t (.done ok)) (.reqEnd ok)
-      .stop s1
+      let s1 := setSt s t (.done ok)
+      -- only requests log their end; the children of `undeploy_all` are plain tasks
+      .stop (if (getTask s t).parent.isNone then emit s1 (.reqEnd ok) else s1)
   | fr :: below =>
     let pop (s : St) (sg : Sig) : Next := .cont (setStack s t below) sg
     let top (s : St) (f : Frame) : St := setStack s t (f :: below)
@@ -260,9 +261,13 @@ def micro (c : Cfg) (deps : List Dep) (s : St) (t : Nat) (sig : Sig) : Next :=
           | some sid =>
             let s1 := emit { s with sets := setAt s.sets sid (remove (s.sets.getD sid []) n) } (.depsDiscard n n)
             if (s1.sets.getD sid []).isEmpty then
-              match lookup s1.evmap n, lookup s1.depmap n with
-              | some e, some o =>
-                  let s2 := emit { s1 with evs := setAt s1.evs e false } (.evClear n)
+              match lookup s1.evmap n with
+              | none => pop s1 .raise
+              | some e =>
+                let s2 := emit { s1 with evs := setAt s1.evs e false } (.evClear n)
+                match lookup s2.depmap n with
+                | none => pop s2 .raise
+                | some o =>
                   let dm' := delete s2.depmap n
                   let cf' := remove s2.config n
                   let dg' := delete s2.dgmap n
@@ -271,10 +276,10 @@ def micro (c : Cfg) (deps : List Dep) (s : St) (t : Nat) (sig : Sig) : Next :=
                   else
                     let s4 := emit { s3 with objs := setAt s3.objs o { (s3.objs.getD o ⟨n, false, .failed, .done⟩) with und := .undeploying } } (.connUndeployEnter n)
                     .stop (setSt (top s4 { fr with pc := 2, a := o, rest := [(e, 0)] }) t .inCall)
-              | _, _ => pop s1 .raise
             else if c.cleanupInside then pop s1 .ret else loopInit s1
         match sig, fr.pc with
         | .go, 0 =>
+            let s := emit s .depKeys
             if (lookup s.depmap n).isSome then
               match lookup s.evmap n with
               | some e =>
@@ -300,6 +305,7 @@ def micro (c : Cfg) (deps : List Dep) (s : St) (t : Nat) (sig : Sig) : Next :=
     | .undeployAll =>
         match sig, fr.pc with
         | .go, 0 =>
+            let s := emit s .depKeys
             let names := s.depmap.map (·.1)
             if names.isEmpty then pop s .ret
             else
@@ -318,8 +324,7 @@ def exec (c : Cfg) (deps : List Dep) : Nat → St → Nat → Sig → St
           -- a finished child may complete the gather of its parent
           match (getTask s' t).st, (getTask s' t).parent with
           | .done _, some p =>
-              if (getTask s' p).st = .waitChildren && childrenDone s' p then exec c deps fuel (setSt s' p .ready) p .go
-              else s'
+              if (getTask s' p).st = .waitChildren && childrenDone s' p then setSt s' p .ready else s'
           | _, _ => s'
 
 inductive Act
